@@ -49,3 +49,19 @@ claim('C20', 'property-based testing: differential comparison of all public entr
       'Exploration: ~6 700 (quick) generated file trees (preprocessor programs, multi-file SystemVerilog programs, library maps) x 4 preprocess flag combinations x 4 parse flag combinations; file, string and two-step entry points must agree on text, every origin, define table, tree (Debug), every leaf origin and error.',
       'Results are compared through Debug renderings.',
       'DESIGN.md 6 C20')
+claim('C12', 'property-based testing: metamorphic relation over layouts (same token positions, independently generated trivia runs) on generated programs, their token mutants and corpus files',
+      'Exploration: ~11 500 (quick) programs / mutants / corpus files are laid out several times with white space at the same inter-token positions but different runs (blanks, tabs, form feeds, CR/LF/CRLF, comments, argument-closed directives) or get `resetall between descriptions; acceptance must be the same and accepted trees equal once WhiteSpace subtrees are dropped.',
+      'Trivia generation respects the lexical preconditions listed in DESIGN.md 3.4; `pragma is excluded.',
+      'DESIGN.md 6 C12')
+claim('C13', 'property-based testing: generated `begin_keywords region programs with later-only words as identifiers (must be accepted) and reserved-word mutants (must be rejected); tree-walk oracle with an independent keyword table',
+      'Exploration: ~15 000 (quick) cases: Verilog-95-safe modules in sequential/nested regions of all eight versions whose declared names are partly words reserved only later (accepted + walk oracle), the same with one declared name replaced by a word reserved in force (Error::Parse), and the walk oracle over the corpus and generated Annex A programs.',
+      'Keyword tables are a snapshot in the harness cross-checked against IEEE 1800-2017 22.14.',
+      'DESIGN.md 6 C13')
+claim('C14', 'fault enumeration by property-based testing: every token boundary / closing delimiter of generated and corpus programs, with and without include indirection; preprocessor-level lexical faults',
+      'Exploration: ~23 000 (quick) (program, site) pairs: an inserted byte that starts no token must give Error::Parse naming the right file at an offset not after the byte; a deleted closing bracket / block keyword must give Error::Parse; ~1 500 preprocessor-level faults must give Error::Preprocess with the right path and offset, wrapped in Include when included.',
+      'Sites are taken from the accepted tree of programs that preprocessing leaves unchanged.',
+      'DESIGN.md 6 C14')
+claim('C15', 'property-based testing: corpus, generated programs, mutants, truncations, token soups and library maps through incomplete mode; differential against strict mode and the raw parsers; metamorphic junk-append',
+      'Exploration: ~16 000 (quick) inputs: never Error::Parse, prefix tiling, strict acceptance of exactly the covered prefix with an identical tree, equal trees when strict mode accepts, unchanged tree (white space aside) after appending unparsable text.',
+      'Appended junk cannot continue the last description.',
+      'DESIGN.md 6 C15')
